@@ -63,7 +63,7 @@ add("C16", "TestC16", level="fault_enumeration",
           "the failing reader is handed over as is or inside *bufio.Reader (default / 16-byte buffer), io.MultiReader or io.LimitReader. "
           "Oracle: a terminal result within N+3 Reads (N = length of the fault-free transcript), repeated unchanged by two "
           "further Reads; all earlier results except possibly the last equal the fault-free results (kind, JSON, checksum). "
-          "evaluations counts inputs; counters.fault_positions counts transform runs. Non-trivial: input with >= 2 results and > 2 bytes "
+          "evaluations counts inputs; counters.fault_positions counts transform runs. Every faulty run has 60 s to come back (nothing can legitimately wait: in-memory reader, millisecond runs). Non-trivial: input with >= 2 results and > 2 bytes "
           "(so faults fall strictly inside); distinct by SHA-256 of the serialised case. exhaustive per input, not globally. About 12 % of the cases take one of the repository's own sample schemas with (the first 4 KiB of) its sample input as subject instead of a generated shape (class repo-sample). A quarter of the generated subjects are declaration hierarchies as in C05 (edi / csv2 / fixedlength2 with groups, rows-based and header/footer records, min/max; class hierarchy)."),
     quick={"checks": 600, "shards": 4, "timeout": 600},
     thorough={"checks": 6000, "shards": 16, "timeout": 3000},
